@@ -1006,7 +1006,7 @@ def gen_Setters():
     from magpylib._src.utility import get_registered_sources
 
     odir = os.path.join(REPO, "magpylib", "_src", "obj_classes")
-    setters, ctors, trees = [], [], {}
+    setters, ctors, trees, helpers = [], [], {}, {}
     for path in sorted(glob.glob(os.path.join(odir, "class_*.py"))):
         fname = os.path.basename(path)
         tree = ast.parse(open(path).read())
@@ -1015,12 +1015,18 @@ def gen_Setters():
         for cls in [n for n in tree.body if isinstance(n, ast.ClassDef)]:
             real = getattr(mod, cls.name)
             cls_methods = {n.name: n for n in cls.body if isinstance(n, ast.FunctionDef) and not n.decorator_list}
+            mod_funcs = {n.name: n for n in tree.body if isinstance(n, ast.FunctionDef)}
             for fn in [n for n in cls.body if isinstance(n, ast.FunctionDef)]:
                 if any(isinstance(d, ast.Attribute) and d.attr == "setter" for d in fn.decorator_list):
                     params = [a.arg for a in fn.args.args]
                     if len(params) != 2:
                         raise Refusal(f"setter {cls.name}.{fn.name} does not have the signature (self, value)")
                     setters.append((fname, cls.name, fn.name, params[1], _stmt_tree(fn.body, f"{cls.name}.{fn.name}", cls_methods)))
+                    # module-level private functions of the same file that the setter calls by name: their bodies go into `helpers`
+                    for node in ast.walk(fn):
+                        if isinstance(node, ast.Call) and isinstance(node.func, ast.Name) and node.func.id.startswith("_") and node.func.id in mod_funcs \
+                                and node.func.id not in helpers:
+                            helpers[node.func.id] = _stmt_tree(mod_funcs[node.func.id].body, f"{fname}:{node.func.id}", {}, 1)
                 if fn.name != "__init__":
                     continue
                 # ---- constructor: how each named parameter is consumed
@@ -1185,6 +1191,9 @@ def gen_Setters():
             "structure Setter where\n  file : String\n  cls : String\n  attr : String\n  param : String\n  body : List Stmt\n  deriving Repr\n\n"
             "/-- every `@x.setter` of magpylib/_src/obj_classes/class_*.py -/\n"
             "def setters : List Setter := [\n" + ",\n".join(f"  ⟨{_lq(f)}, {_lq(c)}, {_lq(a)}, {_lq(p)}, {t}⟩" for f, c, a, p, t in setters) + "]\n\n"
+            "/-- module-level private functions (`_name`) of the same file that a setter calls: name and statement tree (calls are not followed further;\n"
+            "a recursive call appears under the function's own name) -/\n"
+            "def helpers : List (String × List Stmt) := [" + ", ".join(f"({_lq(k)}, {v})" for k, v in helpers.items()) + "]\n\n"
             "/-- every named parameter of every `__init__`: (class, parameter, kind, target, via); kind = \"setter\" (`self.<target> = <parameter>` on a property\n"
             "with a setter), \"plain\" (plain attribute), \"forward\" (passed to `<via>.__init__` as its parameter <target>, bound like Python binds the call),\n"
             "\"call\" (argument number / keyword <target> of the call of <via>), \"unused\" -/\n"
